@@ -106,6 +106,8 @@ func runC09(c *Ctx) {
 	ruleAutoKeepsCompatible(c, p, "C09.auto-keeps")
 	rulePoolSingleDo(c, p, "C09.no-replay")
 	ruleNoCapInEncoders(c, p, "C09.lenonly")
+	ruleCompressibleTable(c, p, "C09.compressible-table")
+	ruleNoPrivateTimer(c, p, "C09.timer")
 	ruleForwardEvery(c, p, "C09.forward-every")
 	rulePrepareMethodSet(c, p, "C09.prepare-methodset")
 	// what a round's block carries is what the column encoders of the build in use write
